@@ -6,6 +6,7 @@ import (
 	"os"
 	"path/filepath"
 	"sort"
+	"strings"
 
 	"golang.org/x/tools/go/packages"
 	"golang.org/x/tools/go/ssa"
@@ -24,6 +25,51 @@ type Program struct {
 	objIDs  map[string]int // globals and functions-as-values
 	nObj    int
 	pkgTypes []types.Type // all package-level named types T and *T, sorted
+	contCache map[string]string
+}
+
+// rootOK returns an SMT predicate body over x (the root type id of an
+// allocation) that holds iff an object of that root type may contain a T.
+// Package-level types have ids 1..len(pkgTypes); any other id stands for a
+// type outside the package, which may contain T only if T is exported or
+// foreign.
+func (p *Program) rootOK(t types.Type, x string) string {
+	if p.contCache == nil {
+		p.contCache = map[string]string{}
+	}
+	k := typeKey(t)
+	tmpl, ok := p.contCache[k]
+	if !ok {
+		var alts []string
+		for _, u := range p.pkgTypes {
+			if _, isPtr := u.(*types.Pointer); isPtr {
+				continue
+			}
+			if isInterface(u) {
+				continue
+			}
+			if containsType(u, t, 0) {
+				alts = append(alts, fmt.Sprintf("(= X %d)", p.typeID(u)))
+			}
+		}
+		closed := false
+		if n, ok := t.(*types.Named); ok && n.Obj().Pkg() == p.pkg.Types && !n.Obj().Exported() {
+			closed = true
+		}
+		if !closed {
+			alts = append(alts, fmt.Sprintf("(> X %d)", len(p.pkgTypes)))
+		}
+		switch len(alts) {
+		case 0:
+			tmpl = "false"
+		case 1:
+			tmpl = alts[0]
+		default:
+			tmpl = "(or " + strings.Join(alts, " ") + ")"
+		}
+		p.contCache[k] = tmpl
+	}
+	return strings.ReplaceAll(tmpl, "X", x)
 }
 
 func loadProgram(repo string, specFiles []string, externFiles []string) (*Program, error) {
